@@ -1061,7 +1061,7 @@ impl Check for Check16 {
         Vec::new()
     }
     fn rule(&self) -> String {
-        "caller-misuse faults: (ctor) every public constructor (Prio3 named constructors incl. multithreaded variants, Prio3::new, Sum over both fields, Prio2::new, Poplar1::new + shard) with aggregators in {0,1,2,3,254,255}, proofs in {0,1,2,255}, bounds in {0,1,p-1,p,2^128-1,..} and usize arguments from {0,1,..,2^32-1,2^32,2^63-1,2^64-1}; an accepted instance within the 256 MiB budget must complete a one-report world-A run; (meas) out-of-range / one-short / one-long / empty measurements to shard; (agg) aggregator id >= n, the other role's share object, 0 / n-1 / n+1 verifier shares, and bytes and OBJECTS of a differently parameterised instance of the same Rust type; (dp) Rational / budget / distribution constructors at 0 and extreme values; distinct = distinct (kind, class, argument tuple) signatures".into()
+        "caller-misuse faults: (flp) Flp::{prove, query, decide, valid} and Type::truncate of every shipped circuit with an argument 1..5 elements short, 1..9 long or empty; (ctor) every public constructor (Prio3 named constructors incl. multithreaded variants, Prio3::new, Sum over both fields, Prio2::new, Poplar1::new + shard) with aggregators in {0,1,2,3,254,255}, proofs in {0,1,2,255}, bounds in {0,1,p-1,p,2^128-1,..} and usize arguments from {0,1,..,2^32-1,2^32,2^63-1,2^64-1}; an accepted instance within the 256 MiB budget must complete a one-report world-A run; (meas) out-of-range / one-short / one-long / empty measurements to shard; (agg) aggregator id >= n, the other role's share object, 0 / n-1 / n+1 verifier shares, and bytes and OBJECTS of a differently parameterised instance of the same Rust type; (dp) Rational / budget / distribution constructors at 0 and extreme values; distinct = distinct (kind, class, argument tuple) signatures".into()
     }
     fn assumptions(&self) -> Vec<String> {
         vec![
